@@ -447,6 +447,50 @@ func init() {
 					}
 					c.Case(0, true, "within-limit")
 				}})
+			// the largest legal items (16 777 215 payload bytes, three length bytes FF FF FF) and their neighbours
+			bigKinds := []ref.Kind{ref.A}
+			if tier == "thorough" {
+				bigKinds = []ref.Kind{ref.A, ref.B, ref.BOOLEAN, ref.U1, ref.I1, ref.U2, ref.I4, ref.F8}
+			}
+			bigNs := []int{ref.MaxBytes - 2, ref.MaxBytes - 1, ref.MaxBytes}
+			sp = append(sp, h.Space{Name: "largest-legal-items", Count: product(len(bigKinds), len(bigNs), 2), ChunkHint: 1,
+				Describe: func(i uint64) interface{} {
+					d := unrank(i, len(bigKinds), len(bigNs), 2)
+					return fmt.Sprintf("%s item with %d payload bytes (rounded down to whole elements), nested=%v", bigKinds[d[0]], bigNs[d[1]], d[2] == 1)
+				},
+				Run: func(c *h.Ctx, i uint64) {
+					d := unrank(i, len(bigKinds), len(bigNs), 2)
+					k := bigKinds[d[0]]
+					n := bigNs[d[1]] / k.Width() * k.Width()
+					text := make([]byte, 0, n+16)
+					if d[2] == 1 {
+						text = append(text, 0x01, 0x02, 0xA5, 0x01, 0x07)
+					}
+					text = append(text, ref.ItemHeader(k, n, 0)...)
+					fillb := byte('a')
+					if k == ref.BOOLEAN {
+						fillb = 1
+					}
+					for j := 0; j < n; j++ {
+						text = append(text, fillb)
+					}
+					x := hdr(1, 1, text)
+					desc := fmt.Sprintf("%s item with %d payload bytes, nested=%v", k, n, d[2] == 1)
+					m, ok, pan := parseSafe(x)
+					c.Ops(1)
+					switch {
+					case pan != "":
+						c.Fail("panic-escaped:largest", desc, pan)
+					case !ok || m == nil:
+						c.Fail("refused-wellformed:largest", desc, "a well-formed message holding an item of legal size was refused")
+					default:
+						if got := m.ToBytes(); !bytes.Equal(got, x) {
+							c.Fail("reencode-differs:largest", desc, fmt.Sprintf("ToBytes() has %d bytes (input %d), first difference at %d", len(got), len(x), firstDiff(got, x)))
+						}
+						c.Ops(1)
+					}
+					c.Case(0, true, "largest")
+				}})
 			// message-length field: every value of each of the 4 length bytes, and short inputs
 			sp = append(sp, h.Space{Name: "message-length-field-and-short-inputs", Count: 4*256 + 20,
 				Describe: func(i uint64) interface{} {
